@@ -81,8 +81,8 @@ def selftest(ctx):
                 e["val"]["blocks"][0]["n"] = 0
                 return evs
 
-    return pipeline.corruption_selftest(ctx, P, [("blind_write", blind_write), ("steal", steal), ("lost_write", lost_write),
-                                                 ("phantom_ip", phantom_ip), ("undercount", undercount)], n_random=6)
+    return pipeline.corruption_selftest(ctx, P, _ipam.fresh([("blind_write", blind_write), ("steal", steal), ("lost_write", lost_write),
+                                                 ("phantom_ip", phantom_ip), ("undercount", undercount)]), n_random=6)
 
 
 MANIFEST = dict(
